@@ -1,24 +1,31 @@
 package remotecheck
 
-// Deterministic ordering of concurrent TLSA lookups (environment fact mx[i].slow).
+// Outstanding TLSA lookups (environment fact mx[i].slow).
 //
-// mx_auth.dane starts the TLSA lookup for an MX asynchronously in PrepareConn
-// and waits for it in CheckConn. Whether the lookup for MX j is still
-// unanswered when the client has already moved on to the next MX is an
-// environment choice (DNS latency). The harness decides it without sleeping:
+// mx_auth.dane starts the TLSA lookup for an MX in a goroutine (PrepareConn) and
+// waits for it in CheckConn. Whether that lookup is still outstanding - possibly
+// not even running yet - when the client has already moved on to the next MX is
+// an environment / scheduler choice. A wrapper around the policy's delivery
+// object (it sees PrepareConn and CheckConn and can observe the lookup futures
+// through the export shim) and a gate in the scripted DNS server pin it down:
 //
-//   - MX not slow: the wrapper around the policy's delivery object waits, right
-//     after PrepareConn, until the lookup has delivered its result; the lookup can
-//     never be outstanding when the client moves on.
-//   - MX j slow: the DNS server holds every answer about MX j until it sees a
-//     query about another MX (the client has moved on) - or, when the client
-//     itself waits for that answer in CheckConn, until holdMax expires.
-//     Answers about the MX the client moved on to are then held in turn until
-//     the wrapper has seen that MX's future filled (with the correct code that
-//     is only possible through these very answers, so holdMax bounds the wait).
+//   - MX not slow: right after PrepareConn the wrapper waits until the lookup
+//     has delivered its result; the lookup is never outstanding when the client
+//     moves on.
+//   - MX j slow: the wrapper returns at once. If the client then reaches
+//     CheckConn for MX j it waits for the lookup itself. If it moves on, the
+//     wrapper, in PrepareConn for the next MX i, holds the DNS answers about MX i
+//     until the lookup for MX j has stored its result SOMEWHERE - in its own
+//     future or in the one just created for MX i - and logs which
+//     (event Lookup{mx: i, cross}); then the answers about MX i are released.
+//     Where the late result goes is decided by the code under test and the Go
+//     scheduler; the trace records it, the specification accepts "cross" only as
+//     the named deviation. Behaviours with a slow MX run with GOMAXPROCS(1), which
+//     makes the goroutine start late (after the client moved on) practically
+//     always; nothing depends on it but how often the deviation is exercised.
 //
-// The fall-back holdMax only bounds how long the code under test is kept
-// waiting for an answer it legitimately needs; it never decides an outcome.
+// No outcome depends on a timer; holdCap only bounds a wait that would mean the
+// harness logic itself is wrong (reported as a harness time-out, exit 2).
 
 import (
 	"context"
@@ -30,50 +37,54 @@ import (
 	"github.com/foxcpp/maddy/framework/module"
 	"github.com/foxcpp/maddy/internal/target/remote"
 	"github.com/foxcpp/maddy/verifharness/scripted"
+	"github.com/foxcpp/maddy/verifharness/vtrace"
 )
 
-const holdMax = 400 * time.Millisecond
+const holdCap = 15 * time.Second
 
 type dnsGate struct {
 	mu       sync.Mutex
 	slow     map[int]bool
-	release  map[int]chan struct{} // slow MX -> closed when the client has moved on
-	victim   map[int]chan struct{} // MX whose answers wait for its future to be filled
-	released map[int]bool
+	holds    map[int]chan struct{}
+	timedOut bool
 }
 
 func newDNSGate(slow map[int]bool) *dnsGate {
-	g := &dnsGate{slow: slow}
-	g.reset()
-	return g
+	return &dnsGate{slow: slow, holds: map[int]chan struct{}{}}
 }
 
-// reset is called at the start of every message (new policy delivery objects).
+// hold makes the DNS server withhold every answer about MX i until release(i).
+func (g *dnsGate) hold(i int) {
+	g.mu.Lock()
+	defer g.mu.Unlock()
+	if _, ok := g.holds[i]; !ok {
+		g.holds[i] = make(chan struct{})
+	}
+}
+
+func (g *dnsGate) release(i int) {
+	g.mu.Lock()
+	defer g.mu.Unlock()
+	if ch, ok := g.holds[i]; ok {
+		close(ch)
+		delete(g.holds, i)
+	}
+}
+
+// reset releases everything (start of a message: new policy delivery objects; end of a behaviour).
 func (g *dnsGate) reset() {
 	g.mu.Lock()
 	defer g.mu.Unlock()
-	for _, ch := range g.release {
-		select {
-		case <-ch:
-		default:
-			close(ch)
-		}
+	for i, ch := range g.holds {
+		close(ch)
+		delete(g.holds, i)
 	}
-	for _, ch := range g.victim {
-		select {
-		case <-ch:
-		default:
-			close(ch)
-		}
-	}
-	g.release = map[int]chan struct{}{}
-	g.victim = map[int]chan struct{}{}
-	g.released = map[int]bool{}
-	for i, s := range g.slow {
-		if s {
-			g.release[i] = make(chan struct{})
-		}
-	}
+}
+
+func (g *dnsGate) TimedOut() bool {
+	g.mu.Lock()
+	defer g.mu.Unlock()
+	return g.timedOut
 }
 
 func mxOfName(name string) int {
@@ -92,56 +103,24 @@ func mxOfName(name string) int {
 	return n
 }
 
+// gate is the scripted DNS server's Gate callback.
 func (g *dnsGate) gate(q scripted.DNSQuery) {
 	i := mxOfName(q.Name)
 	if i == 0 {
 		return
 	}
 	g.mu.Lock()
-	var wait chan struct{}
-	// a query about MX i shows that the client has moved on from every other MX
-	for j, ch := range g.release {
-		if j != i && !g.released[j] {
-			g.released[j] = true
-			close(ch)
-			if _, ok := g.victim[i]; !ok && !g.slow[i] {
-				g.victim[i] = make(chan struct{})
-			}
-		}
-	}
-	own := g.slow[i] && !g.released[i]
-	if own {
-		wait = g.release[i]
-	} else if ch, ok := g.victim[i]; ok {
-		wait = ch
-	}
+	ch := g.holds[i]
 	g.mu.Unlock()
-	if wait != nil {
-		select {
-		case <-wait:
-		case <-time.After(holdMax):
-			if own { // the client itself is waiting for this answer: no longer outstanding
-				g.mu.Lock()
-				if !g.released[i] {
-					g.released[i] = true
-					close(g.release[i])
-				}
-				g.mu.Unlock()
-			}
-		}
+	if ch == nil {
+		return
 	}
-}
-
-// filled is called by the wrapper when the future of MX i has a result.
-func (g *dnsGate) filled(i int) {
-	g.mu.Lock()
-	defer g.mu.Unlock()
-	if ch, ok := g.victim[i]; ok {
-		select {
-		case <-ch:
-		default:
-			close(ch)
-		}
+	select {
+	case <-ch:
+	case <-time.After(holdCap):
+		g.mu.Lock()
+		g.timedOut = true
+		g.mu.Unlock()
 	}
 }
 
@@ -150,32 +129,90 @@ func (g *dnsGate) filled(i int) {
 type danePolicyWrap struct {
 	inner module.MXAuthPolicy
 	gate  *dnsGate
+	tr    *vtrace.Tracer
 }
 
 func (p *danePolicyWrap) Weight() int { return p.inner.Weight() }
 func (p *danePolicyWrap) Start(m *module.MsgMetadata) module.DeliveryMXAuthPolicy {
-	return &daneDeliveryWrap{inner: p.inner.Start(m), gate: p.gate}
+	return &daneDeliveryWrap{inner: p.inner.Start(m), gate: p.gate, tr: p.tr, pending: map[int]remote.VerifRemoteFuture{}}
 }
 
 type daneDeliveryWrap struct {
 	inner module.DeliveryMXAuthPolicy
 	gate  *dnsGate
+	tr    *vtrace.Tracer
+	// lookups of slow MXs that were started and that CheckConn has not waited for
+	pending map[int]remote.VerifRemoteFuture
 }
 
 func (d *daneDeliveryWrap) PrepareDomain(ctx context.Context, domain string) {
 	d.inner.PrepareDomain(ctx, domain)
 }
 
-func (d *daneDeliveryWrap) PrepareConn(ctx context.Context, mx string) {
-	d.inner.PrepareConn(ctx, mx)
-	i := mxOfName(strings.ToLower(mx))
-	if d.gate.slow[i] {
-		return // the answer is outstanding when the client moves on
+// waitAny returns when one of the futures has a result.
+func waitAny(ctx context.Context, futs ...remote.VerifRemoteFuture) {
+	wctx, cancel := context.WithCancel(ctx)
+	defer cancel()
+	done := make(chan struct{}, len(futs))
+	n := 0
+	for _, f := range futs {
+		if f == nil {
+			continue
+		}
+		n++
+		go func(f remote.VerifRemoteFuture) {
+			f.GetContext(wctx)
+			done <- struct{}{}
+		}(f)
 	}
-	wctx, cancel := context.WithTimeout(ctx, 4*holdMax)
-	remote.VerifRemoteDANEAwait(wctx, d.inner)
+	if n == 0 {
+		return
+	}
+	<-done
+}
+
+// isSet reports whether the future has a result (without waiting).
+func isSet(f remote.VerifRemoteFuture) bool {
+	dead, cancel := context.WithCancel(context.Background())
 	cancel()
-	d.gate.filled(i)
+	_, err := f.GetContext(dead)
+	return err != context.Canceled
+}
+
+func (d *daneDeliveryWrap) PrepareConn(ctx context.Context, mx string) {
+	i := mxOfName(strings.ToLower(mx))
+	outstanding := len(d.pending) > 0
+	if outstanding {
+		d.gate.hold(i) // this MX's own answers wait until the late ones have landed
+	}
+	d.inner.PrepareConn(ctx, mx)
+	fut := remote.VerifRemoteDANEFuture(d.inner)
+	if fut == nil {
+		d.gate.release(i)
+		return
+	}
+	cctx, cancel := context.WithTimeout(ctx, holdCap)
+	defer cancel()
+	if outstanding {
+		var futs []remote.VerifRemoteFuture
+		for j, f := range d.pending {
+			futs = append(futs, f)
+			delete(d.pending, j)
+		}
+		waitAny(cctx, append(futs, fut)...)
+		d.tr.Emit("Lookup", vtrace.Ev{"mx": i, "cross": isSet(fut)})
+		d.gate.release(i)
+	}
+	if d.gate.slow[i] {
+		d.pending[i] = fut // nobody waits for it unless CheckConn for this MX is reached
+		return
+	}
+	fut.GetContext(cctx)
+	if cctx.Err() != nil {
+		d.gate.mu.Lock()
+		d.gate.timedOut = true
+		d.gate.mu.Unlock()
+	}
 }
 
 func (d *daneDeliveryWrap) CheckMX(ctx context.Context, l module.MXLevel, domain, mx string, dnssec bool) (module.MXLevel, error) {
@@ -183,6 +220,9 @@ func (d *daneDeliveryWrap) CheckMX(ctx context.Context, l module.MXLevel, domain
 }
 
 func (d *daneDeliveryWrap) CheckConn(ctx context.Context, ml module.MXLevel, tl module.TLSLevel, domain, mx string, st tls.ConnectionState) (module.TLSLevel, error) {
+	i := mxOfName(strings.ToLower(mx))
+	// the client itself waits for this MX's lookup now
+	delete(d.pending, i)
 	return d.inner.CheckConn(ctx, ml, tl, domain, mx, st)
 }
 
